@@ -34,9 +34,12 @@ Definition ck_of (code : Z) : check_result :=
   else if code =? 3 then CkErr ErrStat else if code =? 4 then CkErr ErrOwner
   else if code =? 5 then CkErr ErrGroupWrite else CkErr ErrOtherWrite.
 
+(* api 6: a step of the daemon around a cmd sensor that performs at most one command call and does not hand its
+   error to the caller as a value: the start-up glue (initializeSensors: the failed first read is logged), a curve
+   evaluation, one poll of the sensor monitor.  Observed as OUnit when it completes, OPanic / OHang otherwise. *)
 Definition timeout_of (c : case) : Z :=
   if c_api c =? 0 then c_T c
-  else if c_api c =? 1 then CmdSensorTimeoutS * 1000
+  else if (c_api c =? 1) || (c_api c =? 6) then CmdSensorTimeoutS * 1000
   else CmdFanTimeoutS * 1000.
 
 Definition res_of_outcome (o : outcome) : obs_res :=
@@ -50,6 +53,8 @@ Definition model (c : case) : obs_res * time :=
   let ck := ck_of (c_ck c) in
   let parse := fun _ : text => c_parse c in
   if c_api c =? 0 then let r := safe_cmd T d ck (c_b c) in (res_of_outcome (r_out r), r_time r)
+  else if c_api c =? 6 then
+    let r := safe_cmd T d ck (c_b c) in ((match r_out r with Crash => OPanic | _ => OUnit end), r_time r)
   else if c_api c =? 1 then let '(v, t) := sensor_get_value parse T d ck (c_b c) in (res_of_value v, t)
   else if c_api c =? 3 then let '(v, t) := fan_set_pwm T d ck (c_b c) in (res_of_value v, t)
   else let '(v, t) := fan_get_int parse T d ck (c_b c) in (res_of_value v, t).
